@@ -417,6 +417,11 @@ func chains(r *core.Run) {
 			}
 			// the first t+1 holders take part
 			cfg := netrun.Config{Proto: netrun.EddsaResharing, EdKeys: keys[:t+1], Threshold: t, OldN: n, NewKeys: newKeys, NewThreshold: t2, Seed: r.Seed, Label: strings.Join(seq, "") + fmt.Sprint(step)}
+			for _, k := range cfg.EdKeys {
+				if k.Xi != nil && k.Xi.Cmp(ref.Ed25519.N) >= 0 {
+					r.Count("chain_old_shares_not_below_q", 1)
+				}
+			}
 			nw, err := netrun.New(cfg)
 			if err != nil {
 				r.Violate("chain/constructor", err.Error(), seq)
@@ -431,6 +436,19 @@ func chains(r *core.Run) {
 			}
 			var next []edkg.LocalPartySaveData
 			var parts []oracle.Sharing
+			// every hop of a chain: the old members (none of them is in the new committee) end with the
+			// caller-held share erased. From the second hop on the shares are the unreduced sums a resharing
+			// writes (>= q as a rule), which no keygen-made key of the other scenarios has.
+			for _, nd := range nw.Nodes {
+				if nd.Role == "old" {
+					r.Count("chain_old_members_observed", 1)
+					if len(nd.Ends) != 1 {
+						r.Violate("eddsa-resharing/chain/old-member-no-result", fmt.Sprintf("old member %d of hop %d did not finish", nd.Idx, step+1), seq)
+					} else if nd.EdKey == nil || nd.EdKey.Xi == nil || nd.EdKey.Xi.Sign() != 0 {
+						r.Violate("eddsa-resharing/chain/old-member-finished-with-share-intact", fmt.Sprintf("old member %d of hop %d finished but its caller-visible Xi is not erased", nd.Idx, step+1), map[string]interface{}{"chain": seq, "hop": step + 1, "old_member": nd.Idx})
+					}
+				}
+			}
 			for _, nd := range nw.Nodes {
 				if nd.Role == "new" {
 					if len(nd.Ends) != 1 {
@@ -509,6 +527,14 @@ func ecChain(r *core.Run) {
 		}
 		var next []eckg.LocalPartySaveData
 		var parts []oracle.Sharing
+		for _, nd := range nw.Nodes {
+			if nd.Role == "old" {
+				r.Count("chain_old_members_observed", 1)
+				if len(nd.Ends) == 1 && (nd.EcKey == nil || nd.EcKey.Xi == nil || nd.EcKey.Xi.Sign() != 0) {
+					r.Violate("ecdsa-resharing/chain/old-member-finished-with-share-intact", fmt.Sprintf("old member %d of hop %d finished but its caller-visible Xi is not erased", nd.Idx, step+1), step)
+				}
+			}
+		}
 		for _, nd := range nw.Nodes {
 			if nd.Role == "new" {
 				if len(nd.Ends) != 1 {
